@@ -1,19 +1,66 @@
 package simrt
 
-import "fmt"
+import (
+	"fmt"
+	"net"
+	"reflect"
+)
 
+// Ordered is implemented by simulator objects that have a deterministic
+// identity (simulated connections: their creation number).
 type Ordered interface{ SimOrder() uint64 }
 
+// orderOf finds a deterministic order number for a map key that wraps a
+// simulated object (e.g. fasthttp's perIPConn around a simnet.Conn).
+func orderOf(x any, depth int) (uint64, bool) {
+	if x == nil || depth > 4 {
+		return 0, false
+	}
+	if o, ok := x.(Ordered); ok {
+		return o.SimOrder(), true
+	}
+	if nc, ok := x.(interface{ NetConn() net.Conn }); ok {
+		if o, ok := orderOf(nc.NetConn(), depth+1); ok {
+			return o, true
+		}
+	}
+	v := reflect.ValueOf(x)
+	for v.Kind() == reflect.Pointer || v.Kind() == reflect.Interface {
+		if v.IsNil() {
+			return 0, false
+		}
+		v = v.Elem()
+	}
+	if v.Kind() == reflect.Struct {
+		f := v.FieldByName("Conn")
+		if f.IsValid() && f.CanInterface() && (f.Kind() == reflect.Interface || f.Kind() == reflect.Pointer) && !f.IsNil() {
+			return orderOf(f.Interface(), depth+1)
+		}
+	}
+	return 0, false
+}
+
+// KeyLess orders map keys deterministically for OrderedRange.
 func KeyLess(a, b any) bool {
 	switch x := a.(type) {
 	case string:
 		return x < b.(string)
 	case int:
 		return x < b.(int)
+	case int64:
+		return x < b.(int64)
 	case uint32:
 		return x < b.(uint32)
-	case Ordered:
-		return x.SimOrder() < b.(Ordered).SimOrder()
+	case uint64:
+		return x < b.(uint64)
 	}
-	return fmt.Sprint(a) < fmt.Sprint(b)
+	oa, oka := orderOf(a, 0)
+	ob, okb := orderOf(b, 0)
+	if oka || okb {
+		if oa != ob {
+			return oa < ob
+		}
+		return false
+	}
+	return fmt.Sprintf("%T%v", a, a) < fmt.Sprintf("%T%v", b, b)
 }
